@@ -41,6 +41,10 @@ BUILTIN_EXC = {
     "TypeError": "Exception",
     "ValueError": "Exception",
     "UnicodeError": "ValueError",
+    "SyntaxError": "Exception",
+    "IndentationError": "SyntaxError",
+    "TabError": "IndentationError",
+    "TokenError": "Exception",  # tokenize.TokenError
 }
 
 MAX_DEPTH = 14
